@@ -218,8 +218,12 @@ Generate(in, p) ==
   CASE in.target \in {"fn", "mod"} -> FnModItems(in, p.opts)
     [] in.target = "trait" -> TraitItems(in, p @@ [delegname |-> in.delegname])
     [] in.target = "impl"  -> ImplItems(in, p.opts)
+\* the item is parsed before the attribute (Input::parse): an impl block whose trait path carries generic arguments is
+\* rejected there (the generated header would append `<EntraitT>` to that path)
+ItemErr(in) == IF in.target = "impl" /\ in.im.targs THEN "impl-trait-path-arguments" ELSE ""
 Expand(in) ==
   LET p == FrontEndV(in.target, in.attr, in.variant) IN
-  IF p.err # "" THEN [err |-> p.err, items |-> << >>, lines |-> << >>]
+  IF ItemErr(in) # "" THEN [err |-> ItemErr(in), items |-> << >>, lines |-> << >>]
+  ELSE IF p.err # "" THEN [err |-> p.err, items |-> << >>, lines |-> << >>]
   ELSE LET g == Generate(in, p) IN [err |-> g.err, items |-> g.items, lines |-> Render(g.items)]
 =============================================================================
